@@ -223,6 +223,16 @@ func xdsNeedsPush(req *model.PushRequest, proxy *model.Proxy) (needsPush, defini
 	return false, false
 }
 
+// headlessEndpointOnly reports whether the request was triggered exclusively by headless endpoint
+// updates, whose ServiceEntry keys only mark that endpoints of a headless service moved.
+// Reasons of merged requests are merged as well, so any other reason means that some other event
+// contributed to ConfigsUpdated - for example an EDS update that needs a full push because the
+// service accounts of a service changed, which also uses a ServiceEntry key - and the headless
+// optimizations must not apply.
+func headlessEndpointOnly(req *model.PushRequest) bool {
+	return len(req.Reason) == 1 && req.Reason.Has(model.HeadlessEndpointUpdate)
+}
+
 // waypointNeedsPush checks if a push is needed for a waypoint proxy on incremental kind.Address changes.
 // Waypoint listeners, clusters, and routes are built from the services and workloads attached to the
 // waypoint (e.g. the main_internal listener matches attached service VIPs and attached workload IPs),
